@@ -85,6 +85,7 @@ type Options struct {
 }
 
 type Exec struct {
+	calleeWholeKeys map[string]bool // state keys some callee contract modifies wholesale (mem T, all T.f)
 	logFrom    int // call-log queries only see records from this index on (per-iteration clauses of loops)
 	splitHints []*Term // conditions worth a case split when proving (e.g. append fits / reallocates)
 	ld          *Loaded
@@ -774,6 +775,10 @@ func (ex *Exec) execLoop(fr *Frame, loops map[*ssa.BasicBlock]*loopInfo, li *loo
 			for _, k := range keys {
 				srt := s.sorts[k]
 				if !havoc[k].whole || srt.K != KArray || srt.A != IntS || k == allocKey {
+					continue
+				}
+				if ex.calleeWholeKeys[k] {
+					// a callee's contract may modify every object of this kind (mem T / all T.f): no implicit frame
 					continue
 				}
 				r := BoundVar("fr", IntS)
